@@ -1,3 +1,4 @@
+import copy
 from typing import Any
 from synapgrad.tensor import Tensor
 from synapgrad import cpu_ops
@@ -348,6 +349,8 @@ def slice(x:Tensor, s:slice):
     """
     if not isinstance(x, Tensor):
         raise TypeError(f"Expected x to be a Tensor but got {type(x)}")
+    
+    s = copy.deepcopy(s) # backward must use the index as it was now, not what the caller's list/array holds later
     
     if x.device == Device.CPU:
         out_data = cpu_ops.slice_forward(x.data, s)
